@@ -66,16 +66,23 @@ CLAIMED.update({
     "C05": app("For every failed DeliverTx the full observable projection (accounts, stakes, unbonding, rewards, proposals, parameters, "
                "contract code/storage digests, fee sum, stake-limiter state) must equal the one before; failure catalogue in directed scenarios, "
                "random invalid transactions, EVM reverts / out-of-gas / invalid jumps.", "DESIGN.md 6/C05"),
-    "C06": ("exploration", "2-safety on recorded replica pairs (ReplicasTrace.tla): quiet replica vs replica with CheckTx/Query injected in every gap",
-            "For every block of the base histories, every gap (before BeginBlock, between DeliverTx calls, before EndBlock, before and after Commit) "
-            "x every element of a state-aware pool (duplicates of block transactions, staking/unstaking against every delegatee, next transfers, "
-            "withdraw, proposal, vote, garbage, queries at heights 0,h-1,h,h+1,-1) is injected into replica B; outputs and consensus-state digests "
-            "must equal the quiet replica's after every call.", "single and (thorough) paired injections; histories sampled", "DESIGN.md 6/C06"),
-    "C07": ("exploration", "2-safety on recorded replica pairs (ReplicasTrace.tla): continuous replica vs replica restarted at block boundaries",
+    "C06": ("model_checking", "TLA+ spec RigoCore.tla (mempool scratch view) model-checked with TLC (MC_Mempool) + 2-safety on recorded replica pairs "
+            "(ReplicasTrace.tla): quiet replica vs replica with CheckTx/Query injected in every gap + stepwise clause on recorded CheckTx calls (RigoTrace.tla)",
+            "For every block of the base histories (some with restarts), every gap (before BeginBlock, between DeliverTx calls, before EndBlock, before and "
+            "after Commit) x every element of a state-aware pool (duplicates of block transactions, staking/unstaking against every delegatee, next "
+            "transfers, withdraw, proposal, vote, garbage, every query path at several heights) is injected into replica B; outputs and consensus-state "
+            "digests must equal the quiet replica's after every call. Single-replica histories with heavy mempool-only traffic: every recorded CheckTx "
+            "must leave everything block execution reads unchanged (ledgers, parameters, block limiter, reported validator set, EVM bridge state), and "
+            "its result must be the one RigoCore.tla's scratch view predicts (RigoConf.tla). Design level: MC_Mempool interleaves a CheckTx of any "
+            "menu transaction at any point; all clauses judge those steps.",
+            "single and (thorough) paired injections; histories sampled; model checking is small-scope", "DESIGN.md 6/C06, 11.10"),
+    "C07": ("model_checking", "TLA+ spec RigoCore.tla (Restart step) model-checked with TLC (MC_Restart) + 2-safety on recorded replica pairs (ReplicasTrace.tla): "
+            "continuous replica vs replica restarted at block boundaries",
             "Replica B is restarted (fresh process state on a copy of the data directory) after each single boundary, after pairs/subsets of "
             "boundaries and after every block; Info must report the last commit's height and hash, all later outputs and state digests "
-            "(incl. rebuilt volatile state: last validator set, limiter, reward-hash, EVM root) must equal the continuous replica's.",
-            "histories sampled (biased to staking, membership, governance changes)", "DESIGN.md 6/C07"),
+            "(incl. rebuilt volatile state: last validator set, limiter, reward-hash, EVM root) must equal the continuous replica's. Design level: "
+            "MC_Restart applies RigoCore!Restart at any block boundary of the bounded model; the C07 clauses (and all others) judge every step.",
+            "histories sampled (biased to staking, membership, governance changes); model checking is small-scope", "DESIGN.md 6/C07"),
     "C08": ("fault_enumeration", "TLA+ model Durability.tla (commit refined into durable writes, crash anywhere) + enumeration of every crash point on the real code, judged by DurabilityTrace.tla",
             "Every crash point of every block in the window is taken on the real application: a copy of the data directory after each consensus "
             "call and (DurableWrite hook) after each durable write inside Commit; each copy is reopened, Info checked, the handshake rule applied, "
